@@ -291,7 +291,7 @@ impl Exec for EncExec {
                 };
                 drop(iov);
                 self.bufs.clear();
-                let mut so = StepOut::obs(format!("finish size={} pending={} rest={}", size, pending as u8, to_hex(&rest)));
+                let mut so = StepOut::obs(format!("finish size={} pending={} spec=1 rest={}", size, pending as u8, to_hex(&rest)));
                 drained.extend_from_slice(&rest);
                 so.violations = oracle_enc(l, &payload, &drained, pending, &snaps, ops);
                 so.tags.push(format!("enc_len_{}", len_class(payload.len())));
@@ -442,7 +442,7 @@ impl Exec for DecExec {
                     Ok(Err(FeedErr::Other(e))) => StepOut::obs(format!("feed-failed {}", e)),
                     Ok(Err(FeedErr::Dec(e))) => {
                         let s = observe(&run.dec.consumer());
-                        so.obs.push(seen_obs(&format!("err {} ", fmt_dec_err(&e)), &s, &[]));
+                        so.obs.push(seen_obs(&format!("err {} spec=1 ", fmt_dec_err(&e)), &s, &[]));
                         so.tags.push(format!("dec_err_{}", fmt_dec_err(&e).split(' ').next().unwrap()));
                         let mut produced = run.drained.clone();
                         produced.extend_from_slice(&stable_bytes(&run.dec.consumer()));
@@ -495,12 +495,12 @@ impl Exec for DecExec {
                         if flat.as_deref() != Some(&rest[..]) {
                             so.violations.push("C09 finish returned other bytes than the consumer exposed just before".to_string());
                         }
-                        so.obs.push(format!("finish ok size={} rest={}", size, to_hex(&rest)));
+                        so.obs.push(format!("finish ok spec=1 size={} rest={}", size, to_hex(&rest)));
                         so.tags.push("dec_accepted".into());
                         true
                     }
                     Ok(Err(e)) => {
-                        so.obs.push(format!("finish err {} size={} rest={}", fmt_dec_err(&e), size, to_hex(&rest)));
+                        so.obs.push(format!("finish err {} spec=1 size={} rest={}", fmt_dec_err(&e), size, to_hex(&rest)));
                         so.tags.push(format!("dec_err_{}", fmt_dec_err(&e)));
                         false
                     }
